@@ -41,8 +41,9 @@ def main(argv=None):
             if hasattr(mod, 'thorough'):
                 mod.thorough(ctx)
             if not args.no_selftest and args.repo == '/repo':
-                from . import selftest
-                extra = selftest.run_for_property(prop, ctx)
+                from . import audit, selftest
+                extra = selftest.run_for_property(prop, ctx) or {}
+                extra.update(audit.run_for_property(prop))
         rc = ctx.finish(extra)
     except AnalysisError as e:
         print('ANALYSIS-ERROR property={}: {}'.format(prop, e))
